@@ -98,6 +98,13 @@ NoUnderBuild ==
     AfterOk => \A n \in Closure({NormAt(LastH.cwd, LastH.targs[i]) : i \in 1..Len(LastH.targs)}) \cap Plain :
                    OnAlways(n) \/ ~MustRun(n)
 
+\* the dependency records of a successfully built target are exactly what its last build declared (its .do file, the
+\* absent higher-priority candidates, what the script asked for): nothing lost, nothing left over (C02, C16)
+RecordedDepsExact ==
+    (Quiet /\ gh.crashes = 0) => \A t \in Plain :
+        (gh.seen[t].built /\ w.db[t].gen /\ ~w.db[t].ovr) =>
+            {<<x.mode, x.s>> : x \in {y \in w.edges : y.t = t /\ ~y.del}} = {<<d.m, d.n>> : d \in gh.seen[t].deps}
+
 \* at most once per run (C05, C07, C14)
 \* (a target named on the command line of a forced `redo` is rebuilt by that request
 \* even if a dependent already brought it up to date: one extra run, as in a serial build)
